@@ -22,6 +22,7 @@ pub fn check(family: &str, rec: &J) -> Verdict {
         "table" => table::check(rec),
         "lex" => lex::check_lex(rec),
         "syntax" => syntax::check(rec),
+        "verdict" => syntax::check_verdict(rec),
         "e2e" => syntax::check_e2e(rec),
         "fault" => syntax::check_fault(rec),
         "poetic" => syntax::check_poetic(rec),
